@@ -74,11 +74,14 @@ var c16Names = map[int]string{1: "Merge(s,t)", 2: "Merge(s,[x])", 3: "Merge(s,s)
 	120: "FilterMapCollection", 121: "Filter2DMapCollection", 122: "PartitionMap", 123: "MapCollection",
 	124: "FindMinByKey", 125: "FindMaxByKey", 126: "Pick(map1,t...)", 127: "Omit(map1,t...)"}
 
-var c16ValueFree = map[int]bool{23: true, 109: true, 110: true, 112: true, 113: true, 115: true}
+var c16ValueFree = map[int]bool{23: true, 109: true, 110: true, 112: true, 113: true, 115: true, 256: true}
 
 func c16Name(fn int) string {
 	if n, ok := c16Names[fn]; ok {
 		return n
+	}
+	if n, ok := c16FNames[fn]; ok {
+		return n + "[float64]"
 	}
 	return fmt.Sprintf("fn%d", fn)
 }
@@ -559,6 +562,10 @@ func execC16(in []int64) []int64 {
 	f0, f1 := r.Ints(), r.Ints()
 	L, C := r.Ints(), r.Ints()
 	a := r.Int()
+	isFloat := a >= 100 && a <= 109 // a float program: s, t are []float64 (c16float.go)
+	if isFloat {
+		a -= 100
+	}
 	if a < 0 || a > 9 {
 		r.bad = true
 	}
@@ -579,6 +586,9 @@ func execC16(in []int64) []int64 {
 	rest := r.Rest()
 	if len(rest)%3 != 0 || len(rest) > 12 {
 		return []int64{-999999}
+	}
+	if isFloat {
+		return execC16F(pre, spare, es, tpre, tspare, et, f0, f1, L, C, a, rest)
 	}
 	b0, s := c16Backing(0, pre, es, spare)
 	b1, t := c16Backing(1, tpre, et, tspare)
@@ -614,6 +624,9 @@ func describeC16(in []int64) string {
 	f0, f1 := r.Ints(), r.Ints()
 	L, C := r.Ints(), r.Ints()
 	a := r.Int()
+	if a >= 100 && a <= 109 {
+		return describeC16F(pre, spare, es, tpre, tspare, et, L, a-100, r.Rest())
+	}
 	short := func(xs []int) string {
 		if len(xs) > 12 {
 			return fmt.Sprintf("%v...(len %d)", xs[:12], len(xs))
@@ -783,6 +796,14 @@ func genC16(g *Gen) {
 		}
 	}
 	g.Exhaustive("exhaustive")
+	// --- float programs: the helpers at []float64 with NaN, +0 / -0, +-Inf among the elements (c16float.go)
+	genC16F(g, func(pre, spare int, es []int, tpre, tspare int, et []int, L []int, a int, calls ...c16Cfg) *W {
+		sl, sa := curL, curA
+		curL, curA = L, a
+		w := prog(pre, spare, es, tpre, tspare, et, M0, M1, calls...)
+		curL, curA = sl, sa
+		return w
+	})
 	// --- large: long arguments, spare capacity below and above what a helper would append (1, len(t), len(s)),
 	//     so that append stays in place in some cases and reallocates in others; many variadic arguments
 	mkLarge := func(n, mod, off int) []int { // fixed pseudo-random contents over mod values (repetitions from the start)
@@ -927,5 +948,5 @@ func genC16(g *Gen) {
 
 func init() {
 	register(&Prop{ID: "C16", Exec: execC16, Gen: genC16, Describe: describeC16,
-		Rule: "a case is a program of 1-4 helper calls that share their arguments s, t, map0, map1; slice arguments live inside backing arrays with sentinel cells before the slice and in the spare capacity behind it, and the COMPLETE arrays and both maps are recorded after every call, as is every earlier result (re-read after the call). exhaustive A: each of the 103 slice-world call configurations (84 call codes) alone on every slice of length <= 3 (thorough 4) over {0,1,2} x offset {0,1} x spare capacity {0..3} x 3 second arguments; B: every ORDERED PAIR of these configurations (quick tier: of those that return a slice or map or work in place, one parameter variant each) on every slice of length <= 3 over {1,2} (thorough {0,1,2}) with spare capacity 2 and 0 (quick tier: the no-spare variant up to length 2); E: Flatten / Union on each of the 10 caller-owned nested []any (a value of another type at depth 1, 2, 3 x first / middle / last position, and the well-typed one) alone, followed by the other of the two, and before / after every other non-scalar call; the slice-world configurations include the failing calls (Chunk size 0, Nth out of range, Zip / Unzip on ragged input, SliceToMap on unequal lengths, Range errors, Intersection without parameters, slice bounds out of range, Mean of nothing) and all objects are recorded after a panic or an error exactly as after a normal return; D: every triple (c ; in-place helper ; c) of a slice-world configuration c around each of 9 in-place calls on the same slices; C: every single call, ordered pair and triple (c ; Omit/OmitBy ; c) of the 40 map-world configurations on every map0 with <= 2 (thorough 3) entries over keys 0..2 x values {1,2} x 2 key lists (s = the key list, in a backing array; quick tier: pairs in which neither call takes s run with one key list); large: every slice-world configuration alone on slices of 33, 64, 65, 129, 257, 1025 (thorough also 2049, 4097) elements with spare capacity {0, 1, len(t)-1, len(t)+1, n-1, n+1, 2n+5} and len(t) = 3 (70 as well for n = 65, 129) (below and above what a helper appends; heap.FromSlice/Sort up to 129, thorough 257), 66 variadic slice parameters built by the call and windows of 33, 34, 35, 40, 70 elements of the caller's own [][]int of 70 slices of differing lengths passed in spread form to Merge / Intersection / IntersectionBy, n-by-n Zip up to 129, and 120 ordered pairs per size (up to 257) and spare capacity {6, n+3} (thorough also 0); then seeded random programs of up to 3 calls of any helper on slices up to length 9 / maps up to 6 entries. non-trivial = len(s) >= 1 and spare capacity >= 1 [and >= 2 calls in the random stream]; (stream E) the []any is malformed; (stream C) map0 has >= 2 entries; distinct = distinct wire input"})
+		Rule: "a case is a program of 1-4 helper calls that share their arguments s, t, map0, map1; slice arguments live inside backing arrays with sentinel cells before the slice and in the spare capacity behind it, and the COMPLETE arrays and both maps are recorded after every call, as is every earlier result (re-read after the call). exhaustive A: each of the 103 slice-world call configurations (84 call codes) alone on every slice of length <= 3 (thorough 4) over {0,1,2} x offset {0,1} x spare capacity {0..3} x 3 second arguments; B: every ORDERED PAIR of these configurations (quick tier: of those that return a slice or map or work in place, one parameter variant each) on every slice of length <= 3 over {1,2} (thorough {0,1,2}) with spare capacity 2 and 0 (quick tier: the no-spare variant up to length 2); E: Flatten / Union on each of the 10 caller-owned nested []any (a value of another type at depth 1, 2, 3 x first / middle / last position, and the well-typed one) alone, followed by the other of the two, and before / after every other non-scalar call; the slice-world configurations include the failing calls (Chunk size 0, Nth out of range, Zip / Unzip on ragged input, SliceToMap on unequal lengths, Range errors, Intersection without parameters, slice bounds out of range, Mean of nothing) and all objects are recorded after a panic or an error exactly as after a normal return; D: every triple (c ; in-place helper ; c) of a slice-world configuration c around each of 9 in-place calls on the same slices; C: every single call, ordered pair and triple (c ; Omit/OmitBy ; c) of the 40 map-world configurations on every map0 with <= 2 (thorough 3) entries over keys 0..2 x values {1,2} x 2 key lists (s = the key list, in a backing array; quick tier: pairs in which neither call takes s run with one key list); large: every slice-world configuration alone on slices of 33, 64, 65, 129, 257, 1025 (thorough also 2049, 4097) elements with spare capacity {0, 1, len(t)-1, len(t)+1, n-1, n+1, 2n+5} and len(t) = 3 (70 as well for n = 65, 129) (below and above what a helper appends; heap.FromSlice/Sort up to 129, thorough 257), 66 variadic slice parameters built by the call and windows of 33, 34, 35, 40, 70 elements of the caller's own [][]int of 70 slices of differing lengths passed in spread form to Merge / Intersection / IntersectionBy, n-by-n Zip up to 129, and 120 ordered pairs per size (up to 257) and spare capacity {6, n+3} (thorough also 0); then seeded random programs of up to 3 calls of any helper on slices up to length 9 / maps up to 6 entries. float (exhaustive; s, t are []float64, the sentinels floats, every value a float code; harness/c16float.go): each of the 73 float call configurations (54 call codes: the 22 helpers whose code uses ==, <, >, += or the zero value of the element type - Sum, SumBy, Mean, IndexOf, LastIndexOf, Contains, FindMin/Max(By), Min, Max, Unique(By), Duplicate(WithIndex), Union, Intersection(By), Without, Difference(By) - and Filter, Reject, Reverse, Drop, Chunk, Map, Merge, Partition, heap.FromSlice, heap.Sort, Reduce, Every, Some, FindIndex, FindLastIndex, DropWhile, DropRightWhile, FindAll, ToSlice, Nth, Flatten, Shuffle with float callbacks: v != v, comparisons with a NaN / Inf bound, -v, v+1, const NaN, gogu.Abs, gogu.Clamp, gogu.InRange) alone on every slice of length <= 2 over {NaN, +0, -0, 1, +Inf} and every slice of length 3 over {NaN, -0, 1} (thorough: length <= 3 over {NaN, +0, -0, 1, +Inf, -Inf, 2} and length 4 over {NaN, -0, 1}) with spare capacity 2 and 0 and three second arguments t ([NaN 1], [], [-0 NaN +0]; quick tier: the other two t on slices up to length 1, no spare capacity up to length 2); every ordered pair of 36 configurations (one per helper that returns a slice or a map or works in place, plus FindMin and FindMax) on s = [NaN 1] and [-0 NaN +0] (thorough: all 73 x 73 on every slice of length 1..3 over {NaN, -0, 1}); every triple (c ; in-place ; c) around Reject(v != v), Reject(v == 1), Reverse, heap.FromSlice, heap.Sort, Reject(t), Reverse(t) on 3 (thorough 5) slices with a NaN first / in the middle / last; Flatten / Union on the ten nested []any over float slices; float-large: every float configuration on slices of 33, 65, 129 (thorough 257) elements with NaN, -0, +-Inf scattered among small integers, spare capacity {0, 1, 6, n+1}; float-random: 1500 (thorough 30000) seeded programs of up to 3 float calls on slices up to length 8 over {NaN, -0, +0, +-Inf, -2..3, 5}. non-trivial in the float streams = a NaN, -0 or Inf among the elements of s and spare capacity >= 1 (pairs: such an element; random: also >= 2 calls). non-trivial = len(s) >= 1 and spare capacity >= 1 [and >= 2 calls in the random stream]; (stream E) the []any is malformed; (stream C) map0 has >= 2 entries; distinct = distinct wire input"})
 }
